@@ -123,3 +123,69 @@ def use_loop_obligations(prop="C06", replay=None):
                 r.replay = replay()
         out.append(r)
     return out
+
+
+def own_tables_obligations(prop="C07", replay=None):
+    """FortranCodeUnit.correlate updates the scope's four name tables in place (USE loop: `self.all_X.update(..)`), so each of them must be a dict of the scope's own: every
+    assignment `self.all_X = <value>` in correlate constructs a new dict - `dict(..)`, a dict display / comprehension, or the local helper own_procs_hide(..) (under contract:
+    returns a merged new dict) - never the host's table itself (`getattr(self.parent, "all_X", {})`, a name, an attribute).  Otherwise what one scope imports shows up in its
+    host, its siblings and its host's submodules."""
+    import ast
+    from harness import loader
+    from harness.core import OR, PROVED, REFUTED, UNKNOWN
+    fn = loader.find_def("ford.sourceform", "FortranCodeUnit.correlate")
+    tables = ["all_procs", "all_absinterfaces", "all_types", "all_vars"]
+    out = []
+    for tab in tables:
+        sites = [n for n in ast.walk(fn) if isinstance(n, ast.Assign) and any(ast.unparse(t) == f"self.{tab}" for t in n.targets)]
+        oid = f"{prop}.S.FortranCodeUnit.correlate.{tab}_is_a_dict_of_the_scope_s_own"
+        if not sites:
+            out.append(OR(id=oid, status=UNKNOWN, kind="S", target="ford.sourceform.FortranCodeUnit.correlate", detail=f"no assignment to self.{tab}"))
+            continue
+        bad = []
+        for s in sites:
+            v = s.value
+            fresh = isinstance(v, (ast.Dict, ast.DictComp)) or (isinstance(v, ast.Call) and isinstance(v.func, ast.Name) and v.func.id in ("dict", "own_procs_hide"))
+            if not fresh:
+                bad.append((s.lineno, ast.unparse(s)[:100]))
+        # the first assignment (the one every scope executes) must stand at the top level of the function
+        first = min(sites, key=lambda s: s.lineno)
+        if first not in fn.body:
+            bad.append((first.lineno, "the first assignment is conditional"))
+        r = OR(id=oid, status=REFUTED if bad else PROVED, kind="S", role="frame", backend="ast", target="ford.sourceform.FortranCodeUnit.correlate",
+               desc=f"every `self.{tab} = ...` of correlate ({len(sites)} site(s)) builds a new dict; the first one is unconditional")
+        if bad:
+            r.witness = {"sites": bad}
+            r.detail = f"line {bad[0][0]}: `{bad[0][1]}`: the scope shares a table with another scope, which the USE loop then writes into"
+            if replay:
+                r.replay = replay()
+        out.append(r)
+    return out
+
+
+SCOPE_TABLES = ("all_procs", "all_absinterfaces", "all_types", "all_vars", "pub_procs", "pub_absints", "pub_types", "pub_vars")
+
+
+def tables_only_grow(prop="C07", module="ford.sourceform", replay=None):
+    """what a scope declares or imports stays visible in it: a name is removed from a scope's tables only by being *replaced* by a nearer declaration (dict assignment / update).
+    No statement of the module deletes an entry (`del T[..]`, `T.pop(..)`, `T.popitem()`, `T.clear()`) of all_procs / all_absinterfaces / all_types / all_vars / pub_*: a removed
+    entry (the interface of a dummy procedure, say) would let the host's entity of that name show through."""
+    import ast
+    from harness import loader
+    from harness.core import OR, PROVED, REFUTED
+    _, tree = loader.module_source(module)
+    is_tab = lambda e: isinstance(e, ast.Attribute) and e.attr in SCOPE_TABLES
+    bad = []
+    for n in ast.walk(tree):
+        if isinstance(n, ast.Delete) and any(isinstance(t, ast.Subscript) and is_tab(t.value) for t in n.targets):
+            bad.append((n.lineno, ast.unparse(n)[:80]))
+        if isinstance(n, ast.Call) and isinstance(n.func, ast.Attribute) and n.func.attr in ("pop", "popitem", "clear") and is_tab(n.func.value):
+            bad.append((n.lineno, ast.unparse(n)[:80]))
+    r = OR(id=f"{prop}.S.{module.split('.')[-1]}.scope_tables_only_grow", status=REFUTED if bad else PROVED, kind="S", role="frame", backend="ast", target=module,
+           desc="no `del` / pop / popitem / clear on a scope's name tables anywhere in the module: a visible name is only ever replaced by a nearer one")
+    if bad:
+        r.witness = {"sites": bad}
+        r.detail = f"line {bad[0][0]}: `{bad[0][1]}` removes a name from a scope's table: the host's entity of that name becomes visible instead"
+        if replay:
+            r.replay = replay()
+    return [r]
